@@ -122,3 +122,43 @@ Theorem C10_state_after_fault_is_restartable :
     init_ok (flags_of tk' s') s'.
 Proof. exact rerun_ready. Qed.
 Print Assumptions C10_state_after_fault_is_restartable.
+
+(* One strict protocol per task (compress, condense, repack, join, split,
+   tdms2rtdc: which stale files are removed, how the temporary file is
+   created, exactly how many append rounds follow - Model/C10.v) is a
+   sub-language of the union automaton, so all theorems above hold for the
+   runs of each task. *)
+Theorem C10_task_protocols_are_sublanguages :
+  forall (c : cfg) (n : nat) (t : list op),
+    accepts_task c n t = true -> accepts c n t = true.
+Proof. exact accepts_task_sub. Qed.
+Print Assumptions C10_task_protocols_are_sublanguages.
+
+(* After a fault of either kind at position k, output i holds the complete
+   result iff its rename is among the first k operations; if the rename was
+   still to come the output path is absent or still the old complete file. *)
+Theorem C10_outputs_present_iff_renamed :
+  forall (c : cfg) (n : nat) (t : list op) (s0 : fs) (k : nat) (f : fault)
+         (i : nat),
+    accepts c n t = true -> init_ok c s0 ->
+    let s := exec_fault s0 t k f in
+    (In (ren i) (firstn k t) -> s (POut i) = Fresh (wcount i t) false)
+    /\ (In (ren i) (skipn k t) ->
+        s (POut i) = Absent \/ s (POut i) = s0 (POut i)).
+Proof. exact outputs_by_rename. Qed.
+Print Assumptions C10_outputs_present_iff_renamed.
+
+(* split with n parts (renames last, part by part): a fault at the j-th
+   rename leaves parts < j complete and parts >= j absent (or the old
+   complete file): their new data exist under temporary names only. *)
+Theorem C10_split_parts :
+  forall (c : cfg) (n j : nat) (body : list op) (s0 : fs) (f : fault),
+    j <= n ->
+    let t := body ++ map ren (seq 0 j) ++ map ren (seq j (n - j)) in
+    accepts c n t = true -> init_ok c s0 ->
+    let s := exec_fault s0 t (length (body ++ map ren (seq 0 j))) f in
+    (forall i, i < j -> s (POut i) = Fresh (wcount i t) false)
+    /\ (forall i, j <= i < n ->
+                  s (POut i) = Absent \/ s (POut i) = s0 (POut i)).
+Proof. exact split_parts. Qed.
+Print Assumptions C10_split_parts.
